@@ -48,7 +48,7 @@ def configs(tier):
     out = []
     m = 6 if tier == 'quick' else 10
     rhos = ['1/5', '1/2'] + (['1/3'] if tier == 'thorough' else [])
-    for g in ['irr5', 'paw', 'S3'] + (['T5', 'P4'] if tier == 'thorough' else []):
+    for g in ['irr5', 'paw', 'S3', 'paw+K1'] + (['T5', 'P4', 'K2+K1'] if tier == 'thorough' else []):     # incl. graphs with isolated nodes (degree class 0)
         for rho in rhos:
             out.append(dict(family='group', entry='SIR hierarchy', group='hierarchy', members=HIER, graph=g, rho=rho, order=m, tags=['hierarchy', g, rho]))
     for g in ['C4', 'K4', 'K33'] + (['cube', 'C5'] if tier == 'thorough' else []):
